@@ -172,12 +172,22 @@ func (e *FnEnc) instrEnv(b *ssa.BasicBlock, idx int) *specEnv {
 		}
 		for si, sp := range spans {
 			for i := sp.hi; i >= 0; i-- {
+				if si == 0 {
+					break // the point's own block is handled below (it also knows Allocs)
+				}
+				if ph, isPhi := sp.b.Instrs[i].(*ssa.Phi); isPhi && ph.Comment == name {
+					// the variable's value on entry to a dominating block (e.g. the enclosing loop's header) and
+					// not redefined since: a later definition would have been found first
+					if v, have := e.vals[ph]; have {
+						return v, true
+					}
+				}
 				dr, ok := sp.b.Instrs[i].(*ssa.DebugRef)
-				if si == 0 || !ok {
-					continue // the point's own block is handled below (it also knows Allocs)
+				if !ok {
+					continue
 				}
 				if dr.Object() != nil && dr.Object().Name() == name {
-					if _, isVar := dr.Object().(*types.Var); !isVar {
+					if tv, isVar := dr.Object().(*types.Var); !isVar || tv.IsField() { // a selector x.f also has a DebugRef, for the FIELD object f
 						continue
 					}
 					if _, have := e.vals[dr.X]; !have {
@@ -206,7 +216,7 @@ func lookupInBlock(e *FnEnc, b *ssa.BasicBlock, idx int, name string) (Val, bool
 			switch x := b.Instrs[i].(type) {
 			case *ssa.DebugRef:
 				if x.Object() != nil && x.Object().Name() == name {
-					if _, isVar := x.Object().(*types.Var); !isVar {
+					if tv, isVar := x.Object().(*types.Var); !isVar || tv.IsField() {
 						continue
 					}
 					if _, have := e.vals[x.X]; !have {
@@ -220,6 +230,12 @@ func lookupInBlock(e *FnEnc, b *ssa.BasicBlock, idx int, name string) (Val, bool
 			case *ssa.Alloc:
 				if x.Comment == name {
 					return e.deref(e.val(x)), true
+				}
+			case *ssa.Phi:
+				if x.Comment == name {
+					if v, have := e.vals[x]; have {
+						return v, true
+					}
 				}
 			}
 		}
